@@ -66,13 +66,13 @@ Qed.
    clauses there and in design/C03.md); the clauses not in that reference grammar are covered by the prescribed-tree
    oracle (and, where modelled, by the model-vs-code correspondence) only. *)
 
-(* one SELECT statement: DISTINCT [ON (...)], select list with aliases and `*`, FROM list with qualified names and aliases,
+(* one SELECT statement: DISTINCT [ON (...)], select list with aliases, `*` and `t.*`, FROM list with qualified names and aliases,
    joins of every kind with ON / USING, WHERE, GROUP BY with plain expressions, ROLLUP (...) and CUBE (...), HAVING, ORDER BY
    with direction and NULLS FIRST | LAST, LIMIT, OFFSET, FETCH {FIRST | NEXT} n [PERCENT] [ROW | ROWS] {ONLY | WITH TIES};
    every parenthesisation choice [sr] of every expression; for the tree as it is ([tree_flags], switch
    [d_no_alias_after_column] on) under the side condition that no alias without AS follows a bare column reference, for
    the repaired configuration without it.
-   Omitted clauses: SELECT ALL, t.*, derived tables, LATERAL, GROUPING SETS, MySQL WITH ROLLUP, FOR, sub-query
+   Omitted clauses: SELECT ALL, derived tables, LATERAL, GROUPING SETS, MySQL WITH ROLLUP, FOR, sub-query
    expressions, window functions (FILTER / OVER / WITHIN GROUP). *)
 Theorem C03_parse_render_select_partial :
   forall md sf fuel (sr : srho) s stop d,
